@@ -114,18 +114,30 @@ impl RngCore for RecRng {
         self.fill_bytes(&mut b);
         u64::from_le_bytes(b)
     }
+    /// The deterministic source is a BYTE STREAM (32-byte block j = draw_bytes(seed, ep, j, 32)); a call takes the next
+    /// dest.len() bytes of it, so the specification's "k-th 32-byte draw" does not depend on how the code under test
+    /// slices its requests (one 32-byte request or two 16-byte ones give the same key).
     fn fill_bytes(&mut self, dest: &mut [u8]) {
-        let k = {
+        let pos = {
             let mut c = self.ctr.lock().unwrap();
-            let k = *c;
-            *c += 1;
-            k
+            let p = *c;
+            *c += dest.len() as u64;
+            p
         };
         match &mut self.real {
             Some(r) => r.fill_bytes(dest),
-            None => dest.copy_from_slice(&draw_bytes(self.seed, &self.ep, k, dest.len())),
+            None => {
+                let mut blk = (u64::MAX, vec![]);
+                for (i, b) in dest.iter_mut().enumerate() {
+                    let p = pos + i as u64;
+                    if blk.0 != p / 32 {
+                        blk = (p / 32, draw_bytes(self.seed, &self.ep, p / 32, 32));
+                    }
+                    *b = blk.1[(p % 32) as usize];
+                }
+            },
         }
-        self.log.lock().unwrap().ops.push(Op::Rand { ep: self.ep.clone(), k, bytes: dest.to_vec() });
+        self.log.lock().unwrap().ops.push(Op::Rand { ep: self.ep.clone(), k: pos / 32, bytes: dest.to_vec() });
     }
     fn try_fill_bytes(&mut self, dest: &mut [u8]) -> Result<(), rand_core::Error> {
         self.fill_bytes(dest);
